@@ -182,6 +182,11 @@ func checkC05(ctx *Ctx, c *Case) error {
 	h4 := model.BuildP(t, d.ProtoReflect())
 	model.SetEmptyContainers(h4)
 	hist["empty-non-nil-containers"] = h4
+	h5 := model.BuildP(t, d.ProtoReflect())
+	if model.FlipEmptyBytes(h5) > 0 {
+		hist["empty-bytes-held-as-nil-or-as-empty-slice"] = h5
+		ctx.Label("history with flipped empty bytes")
+	}
 	hist["clone"] = proto.Clone(hist["struct-filled-by-protoimpl"])
 	names := make([]string, 0, len(hist))
 	for k := range hist {
